@@ -1,5 +1,6 @@
 SPECIFICATION Spec
 CONSTANT Grid <- GridMutant
+CONSTANT ShuffleAll = TRUE
 CONSTANT IncFlags <- MutIncFlags
 INVARIANT SameSupportNoIncongruence
 CHECK_DEADLOCK FALSE
